@@ -404,7 +404,9 @@ def path_returns(fn, limit=256):
             hdr = _subst_env(st.iter if isinstance(st, ast.For) else st.test, env)
             # ends reached from inside the loop body
             run(st.body, env2, guards + [(ast.Call(func=ast.Name(id="__loop__", ctx=ast.Load()), args=[hdr], keywords=[]), True)], effects, lambda e, g, f: None)
-            eff = effects + [ast.Expr(value=ast.Call(func=ast.Name(id="__loop__", ctx=ast.Load()), args=[hdr], keywords=[]))]
+            mark = ast.Expr(value=ast.Call(func=ast.Name(id="__loop__", ctx=ast.Load()), args=[hdr], keywords=[]))
+            mark._loop = st       # the loop statement, for rules that look into the body
+            eff = effects + [mark]
             return run(st.orelse, env2, guards, eff, nxt)
         if isinstance(st, ast.Try):
             run(st.body + st.orelse, env, guards, effects, lambda e, g, f: run(st.finalbody, e, g, f, nxt))
@@ -511,10 +513,43 @@ def flat_facts(guards):
             for v in t.values:
                 flat(v, pol)
             return
+        if isinstance(t, ast.BoolOp):
+            # a false conjunction / true disjunction: a clause, resolved below against the unit facts
+            clauses.append([(v, pol) for v in t.values])
+            return
         out.append((t, pol))
 
+    clauses = []
     for t, pol in guards:
         flat(t, pol)
+    # unit resolution: in `not (A and B)` with A known to hold, B fails (same-text tests of a path agree, as in _static_truth)
+    changed = True
+    while changed and clauses:
+        changed = False
+        known = {}
+        for t, pol in out:
+            known[ast.dump(t)] = pol
+        for cl in list(clauses):
+            rest = []
+            sat = False
+            for v, pol in cl:
+                neg = 0
+                w = v
+                while isinstance(w, ast.UnaryOp) and isinstance(w.op, ast.Not):
+                    w = w.operand
+                    neg ^= 1
+                want = pol ^ bool(neg)
+                k = known.get(ast.dump(w))
+                if k is None:
+                    rest.append((v, pol))
+                elif k == want:
+                    sat = True
+            if sat:
+                clauses.remove(cl)
+            elif len(rest) == 1:
+                clauses.remove(cl)
+                flat(*rest[0])
+                changed = True
     return out
 
 
